@@ -97,11 +97,13 @@ func TestVerifC18Store(t *testing.T) {
 		c.Op(prog)
 		verifc18.Current.Store(prog)
 		var h *verifc18.History
-		verifc18.Progress.Add(1)
-		rapid.SyncTest(rt, func(*rapid.T) {
-			h = verifC18RunOnce(prog, true, serialize)
-		})
-		verifc18.Progress.Add(1)
+		func() {
+			verifc18.Progress.Add(1)
+			defer verifc18.Progress.Add(1)
+			rapid.SyncTest(rt, func(*rapid.T) {
+				h = verifC18RunOnce(prog, true, serialize)
+			})
+		}()
 		verifc18.Judge(rt, rec, c, prog, h, verifc18.CheckOpts{})
 		c.Done()
 	})
@@ -296,11 +298,13 @@ func TestVerifC18Replay(t *testing.T) {
 			c.Label("replay")
 			verifc18.Current.Store(&prog)
 			var h *verifc18.History
-			verifc18.Progress.Add(1)
-			synctest.Test(t, func(*testing.T) {
-				h = verifC18RunOnce(&prog, true, serialize)
-			})
-			verifc18.Progress.Add(1)
+			func() {
+				verifc18.Progress.Add(1)
+				defer verifc18.Progress.Add(1)
+				synctest.Test(t, func(*testing.T) {
+					h = verifC18RunOnce(&prog, true, serialize)
+				})
+			}()
 			verifc18.Judge(t, rec, c, &prog, h, verifc18.CheckOpts{})
 			c.Done()
 		}
